@@ -2,6 +2,8 @@ package rules
 
 import (
 	"fmt"
+	"go/ast"
+	"go/token"
 	"go/types"
 	"os"
 	"sort"
@@ -72,6 +74,7 @@ func ErrorDiscipline(c *Ctx, id string, floor int) {
 	sort.Slice(fns, func(i, j int) bool { return fns[i].Pos() < fns[j].Pos() })
 	statelessness(c, fns)
 	conflictsNotFiltered(c, fns)
+	assignedErrorsRead(c, fns)
 	canFail(c, fns)
 	for _, fn := range fns {
 		nres := fn.Signature.Results().Len()
@@ -416,14 +419,16 @@ func reachable(c *Ctx, roots []*ssa.Function, depth int) []*ssa.Function {
 }
 
 // probes: "<function>|<callee>" called to find out *whether* something parses / exists; its error is the answer, not a failure
-var probes = map[string]string{}
+var probes = map[string]string{
+	"findDependencyVersionToInstall|semver.NewVersion": "does this tag of the repository parse as a semantic version (other tags are skipped)",
+	"findDependencyVersionToUpdate|semver.NewVersion":  "does this tag of the repository parse as a semantic version (other tags are skipped)",
+}
 
 // probeCallees: pure parsers and lookups the tree uses as questions ("is this a
 // digest?", "does this tag parse as a version?", "is the field set?"): their
 // failure selects the other branch and is not an event to report.
 var probeCallees = map[string]string{
 	"v1.NewHash":                   "is the constraint / identifier a digest",
-	"semver.NewVersion":            "does the tag parse as a semantic version (others are skipped)",
 	"name.ParseReference":          "does the package string parse as an image reference",
 	"(*fieldpath.Paved).GetString": "is the field set",
 	"(*fieldpath.Paved).GetValue":  "is the field set",
@@ -679,6 +684,14 @@ func conflictsNotFiltered(c *Ctx, fns []*ssa.Function) {
 					if v.Name() == "IsConflict" {
 						filtersConflict = true
 					}
+					// a local predicate (closure or helper of this module) that itself asks IsConflict
+					if v.Blocks != nil && d < 3 {
+						for _, y := range cfgx.Calls(v, nil) {
+							if strings.HasSuffix(cfgx.CalleeName(y), "errors.IsConflict") {
+								filtersConflict = true
+							}
+						}
+					}
 				case *ssa.ChangeType:
 					visit(v.X, d+1)
 				case *ssa.MakeInterface:
@@ -796,4 +809,68 @@ func notOverwritten(c *Ctx, fn *ssa.Function, call ssa.CallInstruction, ev *cfgx
 		}
 	}
 	c.R.Check(inLoop, load.FuncName(fn)+": "+site(call)+" failure looked at in its iteration", c.pos(call.Pos()), "the error of this step is tested or returned inside the loop", "the error of this step is only carried to the next iteration, which overwrites it: the failure of one element is forgotten when a later one succeeds")
+}
+
+// assignedErrorsRead: an error the source assigns to a named variable is read
+// before that variable is assigned again. `_, err = step1(); if err = step2();
+// err != nil` compiles (err is used somewhere) but step1's failure can never be
+// seen: in the SSA form its error value has no use at all. An error discarded on
+// purpose is written `_ = f()` or as a bare call and is not this rule's business.
+func assignedErrorsRead(c *Ctx, fns []*ssa.Function) {
+	for _, fn := range fns {
+		syn := fn.Syntax()
+		if syn == nil || fn.Blocks == nil {
+			continue
+		}
+		var assigns map[token.Pos]*ast.AssignStmt
+		var bad []string
+		pos := ""
+		n := 0
+		for _, call := range cfgx.Calls(fn, nil) {
+			res := call.Common().Signature().Results()
+			if res.Len() == 0 || res.At(res.Len()-1).Type().String() != "error" {
+				continue
+			}
+			n++
+			ev := cfgx.ErrEvents(call)
+			if ev == nil || !ev.Dropped {
+				continue
+			}
+			if ev.Err != nil && ev.Err.Referrers() != nil && len(*ev.Err.Referrers()) > 0 {
+				continue
+			}
+			if assigns == nil {
+				assigns = map[token.Pos]*ast.AssignStmt{}
+				ast.Inspect(syn, func(nd ast.Node) bool {
+					if as, ok := nd.(*ast.AssignStmt); ok && len(as.Rhs) == 1 {
+						if ce, ok := as.Rhs[0].(*ast.CallExpr); ok {
+							assigns[ce.Lparen] = as
+						}
+					}
+					return true
+				})
+			}
+			as := assigns[call.Pos()]
+			if as == nil || len(as.Lhs) != res.Len() {
+				continue
+			}
+			id, ok := as.Lhs[len(as.Lhs)-1].(*ast.Ident)
+			if !ok || id.Name == "_" {
+				continue
+			}
+			bad = append(bad, site(call)+" assigned to "+id.Name)
+			if pos == "" {
+				pos = c.pos(call.Pos())
+			}
+		}
+		if n == 0 {
+			continue
+		}
+		if pos == "" {
+			pos = c.pos(fn.Pos())
+		}
+		c.R.Check(len(bad) == 0, load.FuncName(fn)+": assigned errors are read", pos,
+			"every error this function assigns to a variable is read before the variable is assigned again",
+			"the error of "+strings.Join(bad, ", ")+" is assigned to a variable and never read (the variable is overwritten first): the step's failure cannot be seen")
+	}
 }
